@@ -102,7 +102,7 @@ def gen_request(t):
     k = t.draw(4)
     cuts = sorted(t.draw(len(body) + 1) for _ in range(k)) if body else []
     return {"method": method, "path": path, "root_path": t.choice(["", "", "/root", "/r/é"]), "query": t.choice(QUERIES), "headers": headers, "body": body,
-            "cuts": cuts, "client": t.choice([None, ("1.2.3.4", 5555), ("::1", 80)]), "server": t.choice([("example.org", 80), ("example.org", 8080), ("10.0.0.1", 443)]),
+            "cuts": cuts, "empties": [t.draw(4) for _ in range(t.draw(3))] if body and t.draw(3) == 0 else [], "client": t.choice([None, ("1.2.3.4", 5555), ("::1", 80)]), "server": t.choice([("example.org", 80), ("example.org", 8080), ("10.0.0.1", 443)]),
             "scheme": t.choice(["http", "https"]), "body_kind": kind}
 
 
@@ -113,15 +113,14 @@ def gen_app(t, depth=0):
     kinds += [(2, "files"), (2, "pages"), (1, "raises")]
     k = t.weighted(kinds)
     if k == "dump":
-        return {"t": "dump"}
+        # the order of the body accessors matters: form-first parses the multipart body straight from the channel
+        return {"t": "dump", "order": t.choice(["bjf", "fbj", "jfb", "fjb", "bfj"])}
     if k == "raises":
         return {"t": "raises", "how": t.choice(["exc", "http404", "http418", "abort400"])}
     if k == "resp":
         r = recipes.gen_recipe(t, files=FILES)
         if r["kind"] == "file" and r["size"] // r["chunk_size"] > 60:
             r["chunk_size"] = r["size"] // (2 + t.draw(20)) + 1
-        if r["kind"] == "sse":
-            r["delays"] = [0.0] * len(r["events"])
         return {"t": "resp", "recipe": r}
     if k == "router":
         n = 1 + t.draw(4)
@@ -135,7 +134,7 @@ def gen_app(t, depth=0):
     if k == "mw":
         return {"t": "mw", "edit": t.choice([None, None, ("x-edited", "1")]), "inner": gen_app(t, depth + 1)}
     if k == "dec":
-        return {"t": "dec", "inner": t.choice([{"t": "dump"}, {"t": "resp", "recipe": recipes.gen_recipe(t, kinds=["response", "text", "json", "redirect"])}])}
+        return {"t": "dec", "inner": t.choice([{"t": "dump", "order": t.choice(["bjf", "fbj"])}, {"t": "resp", "recipe": recipes.gen_recipe(t, kinds=["response", "text", "json", "redirect"])}])}
     return {"t": k, "dir": t.choice(["site", "site/sub"]), "cacheability": t.choice(["public", "no-cache"]), "max_age": t.choice([600, 0])}
 
 
@@ -207,7 +206,7 @@ class C04(Prop):
                 if iface == "wsgi":
                     def view(request):
                         if node["t"] == "dump":
-                            views.append(dump_sync(request))
+                            views.append(dump_sync(request, node.get("order", "bjf")))
                             return M.JSONResponse({"ok": 1})
                         if node["t"] == "raises":
                             raise_how(node["how"])
@@ -215,7 +214,7 @@ class C04(Prop):
                 else:
                     async def view(request):
                         if node["t"] == "dump":
-                            views.append(await dump_async(request))
+                            views.append(await dump_async(request, node.get("order", "bjf")))
                             return M.JSONResponse({"ok": 1})
                         if node["t"] == "raises":
                             raise_how(node["how"])
@@ -312,6 +311,8 @@ class C04(Prop):
         body = rq["body"]
         cuts = rq["cuts"]
         pieces = [body[i:j] for i, j in zip([0] + cuts, cuts + [len(body)])]
+        for pos in rq.get("empties", []):     # empty http.request messages in the middle of the body are legal
+            pieces.insert(min(pos, len(pieces)), b"")
         msgs = [{"type": "http.request", "body": p, "more_body": i < len(pieces) - 1, "delay": 0.0} for i, p in enumerate(pieces)]
         lats = {"fast": (0.0,), "mixed": (0.0, 0.0, 0.2, 1.0)}[plan["lat"]]
         random.seed(4242)
@@ -477,10 +478,8 @@ def _guard_sync(fn):
         return ("exception", type(e).__name__, str(e)[:60])
 
 
-def dump_sync(request):
+def dump_sync(request, order="bjf"):
     from baize.datastructures import UploadFile
-    body = _guard_sync(lambda: request.body)
-    js = _guard_sync(lambda: request.json)
 
     def form():
         out = []
@@ -492,13 +491,20 @@ def dump_sync(request):
                 out.append((k, val))
         return out
 
-    fm = _guard_sync(form)
-    v = _common_view(request, body, js, fm)
+    got = {}
+    for c in order:
+        if c == "b":
+            got["b"] = _guard_sync(lambda: request.body)
+        elif c == "j":
+            got["j"] = _guard_sync(lambda: request.json)
+        else:
+            got["f"] = _guard_sync(form)
+    v = _common_view(request, got["b"], got["j"], got["f"])
     request.close()
     return v
 
 
-async def dump_async(request):
+async def dump_async(request, order="bjf"):
     from baize.datastructures import UploadFile
     from baize.exceptions import HTTPException
 
@@ -526,10 +532,15 @@ async def dump_async(request):
                 out.append((k, val))
         return out
 
-    body = await guard(get_body)
-    js = await guard(get_json)
-    fm = await guard(get_form)
-    v = _common_view(request, body, js, fm)
+    got = {}
+    for c in order:
+        if c == "b":
+            got["b"] = await guard(get_body)
+        elif c == "j":
+            got["j"] = await guard(get_json)
+        else:
+            got["f"] = await guard(get_form)
+    v = _common_view(request, got["b"], got["j"], got["f"])
     await request.close()
     return v
 
